@@ -65,6 +65,8 @@ static const row ROWS[] = {
 	{ F_INITFAIL_3RD,   2, 5,  0,  0, 0,                    NOLIM, NOLIM, 0,    0,    -1,    0,     1, 0, 0, 0 },
 	{ F_2BLK,           2, 0,  0,  0, 0,                    NOLIM, NOLIM, 0,    0,    0,     0,     1, 0, 0, 0, 1 },	// input ends at every offset of the second Block
 	{ F_2BLK,           2, 3,  2,  0, 0,                    NOLIM, NOLIM, 0,    0,    0,     0,     1, 0, 0, 0, 1 },
+	{ F_3BLK,           3, 0,  0,  0, 0,                    NOLIM, NOLIM, 0,    0,    0,     0,     1, 0, 0, 0, 5 },	// the k-th pthread_create fails (k = 1..threads): LZMA_MEM_ERROR, then the same handle decodes the file
+	{ F_3BLK,           2, 7,  2,  0, 0,                    NOLIM, NOLIM, 0,    0,    0,     0,     0, 0, 0, 0, 5 },
 	{ F_2DICT,          2, 60, 0,  0, 0,                    NOLIM, 100000, 1,   0,    0,     0,     1, 0, 0, 0 },	// LZMA_MEMLIMIT_ERROR for the second Block while the first is still being decoded and input is pending (LZMA_RUN); then the limit is raised
 	{ F_2DICT,          2, 60, 3,  0, 0,                    NOLIM, 100000, 1,   0,    0,     0,     1, 0, 0, 0 },
 	{ F_2DICT,          2, 0,  0,  1, 0,                    NOLIM, 100000, 1,   0,    0,     0,     1, 1, 0, 0 },
@@ -140,7 +142,7 @@ static int build_file(int kind) {
 // ---- one execution -------------------------------------------------------------------------------
 typedef struct { lzma_ret r; size_t tout, tin; uint64_t h; int calls; int probe_bad; long leaked; int premature; size_t drain_out; } obs;
 static unsigned char dec[65536 + 4096];
-static const row *R; static int cur_early, cur_reinit, cur_cut; static size_t st_drain_out;
+static const row *R; static int cur_early, cur_reinit, cur_cut, cur_trunc; static size_t st_drain_out;
 
 static obs drive(lzma_stream *d, int mt) {
 	obs o = { 0, 0, 0, 0, 0, 0, 0, 0, 0 };
@@ -182,8 +184,13 @@ static int mt_init(lzma_stream *d) {
 static void body(void) {
 	lzma_stream d = LZMA_STREAM_INIT; atomic_store(&a_live, 0);
 	first_flags = (R->reinit == -2 && cur_reinit) ? (LZMA_IGNORE_CHECK | LZMA_CONCATENATED | LZMA_FAIL_FAST) : 0;
+	vs_fail_create_at = R->mode == 5 ? cur_trunc : 0;	// mode 5: the cur_trunc-th thread creation fails
 	if (!mt_init(&d)) { last = (obs){ 98, 0, 0, 0, 0, 0, 0 }; return; }
 	last = drive(&d, 1);
+	if (R->mode == 5 && last.r == LZMA_MEM_ERROR) {	// the documented answer; the handle must be re-usable: same decoder again, no failure this time
+		vs_fail_create_at = 0; d.avail_in = 0; d.avail_out = 0;
+		if (!mt_init(&d)) last = (obs){ 98, 0, 0, 0, 0, 0, 0 }; else last = drive(&d, 1); }
+	else if (R->mode == 5 && vs_fail_create_at && last.r != st_obs.r) last.r = 95;	/* a creation failed but the caller was told something else than LZMA_MEM_ERROR */
 	if (last.r == 78) {	// re-initialise the same handle mid-decode and decode the file from the start
 		int save = cur_reinit; cur_reinit = 0; first_flags = 0;
 		d.avail_in = 0; d.avail_out = 0;
@@ -194,7 +201,7 @@ static void body(void) {
 }
 
 static int st_reference(void) { lzma_stream d = LZMA_STREAM_INIT; if (lzma_stream_decoder(&d, UINT64_MAX, R->flags & LZMA_CONCATENATED) != LZMA_OK) return 1; st_obs = drive(&d, 0); st_drain_out = st_obs.drain_out; memcpy(st_out, dec, st_obs.tout); lzma_end(&d); st_done = 1; return 0; }
-static long n_exec, n_bad; static h_set obsset; static char rowname[160]; static int cur_trunc;
+static long n_exec, n_bad; static h_set obsset; static char rowname[160];
 static void sched_extra(char *b, size_t n) { size_t o = snprintf(b, n, "schedule=["); vs_schedule_string(b + o, n - o); o = strlen(b); o += snprintf(b + o, n - o, "] trace="); vs_trace_string(b + o, n - o); }
 static void on_fatal(const char *kind, const char *detail) {
 	char sch[1200], tr[1500]; vs_schedule_string(sch, sizeof sch); vs_trace_string(tr, sizeof tr);
@@ -235,7 +242,7 @@ static void body_checked(void) { H_CASE("c07_mtdec row=%s early=%d reinit=%d tru
 
 static void row_name(const row *r, int idx) {
 	snprintf(rowname, sizeof rowname, "%d:%s,thr=%d,in=%d,out=%d,to=%d,fl=%#x,mlt=%s,mls=%s%s%s%s", idx, FN[r->file], r->threads, r->inchunk, r->outchunk, r->timeout, r->flags,
-		r->mlt == NOLIM ? "inf" : r->mlt == 1 ? "1" : "small", r->mls == NOLIM ? "inf" : r->mls == 1 ? "1+raise" : "between+raise", r->early ? ",early-end" : "", r->reinit ? ",reinit" : "", r->probes ? ",probes" : ""); if (r->mode) { size_t l = strlen(rowname); snprintf(rowname + l, sizeof rowname - l, "%s", r->mode == 1 ? ",trunc-sweep" : r->mode == 3 ? ",exact-output+cut-sweep" : ",drain"); }
+		r->mlt == NOLIM ? "inf" : r->mlt == 1 ? "1" : "small", r->mls == NOLIM ? "inf" : r->mls == 1 ? "1+raise" : "between+raise", r->early ? ",early-end" : "", r->reinit ? ",reinit" : "", r->probes ? ",probes" : ""); if (r->mode) { size_t l = strlen(rowname); snprintf(rowname + l, sizeof rowname - l, "%s", r->mode == 1 ? ",trunc-sweep" : r->mode == 3 ? ",exact-output+cut-sweep" : r->mode == 5 ? ",thread-creation-fails" : ",drain"); }
 }
 static int parse_schedule(const char *s) {	// "i:c i:c" -> vs_prefix; options counts unknown (-1 = do not check)
 	int maxi = -1; memset(vs_prefix, 0, sizeof(int) * VS_MAXPTS);
@@ -254,7 +261,7 @@ int main(int argc, char **argv) {
 	vs_allow_timeouts = R->timeout != 0;
 	if (!strcmp(argv[1], "replay")) {
 		cur_early = argc > 4 ? atoi(argv[4]) : 0; cur_reinit = argc > 5 ? atoi(argv[5]) : 0; vs_allow_spurious = R->bs > 0;
-		if (argc > 6 && atoi(argv[6]) > 0) { cur_trunc = atoi(argv[6]); if (R->mode == 3) cur_cut = cur_trunc; else clen = (size_t)cur_trunc; if (st_reference()) return 2; }
+		if (argc > 6 && atoi(argv[6]) > 0) { cur_trunc = atoi(argv[6]); if (R->mode == 3) cur_cut = cur_trunc; else if (R->mode != 5) clen = (size_t)cur_trunc; if (st_reference()) return 2; }
 		int n = parse_schedule(argc > 3 ? argv[3] : ""); for (int i = 0; i < n; i++) vs_prefix_nen[i] = -1;
 		// replay twice: identical observations required
 		obs a, b2; for (int k = 0; k < 2; k++) { vs_prefix_len = 0; /* choices applied through a permissive prefix */
@@ -274,10 +281,12 @@ int main(int argc, char **argv) {
 	int kmin = kmax ? 1 : 0;
 	if (R->mode == 1) { kmin = (int)LAY.off[1]; kmax = (int)(LAY.off[1] + LAY.total[1]) - 1; }
 	if (R->mode == 3) { kmin = 1; kmax = (int)clen - 1; }
+	if (R->mode == 5) { kmin = 1; kmax = R->threads; }
 	for (int k = kmin; k <= kmax; k++) { if (k_from >= 0 && k < k_from) continue;
 		cur_early = R->early ? k : 0; cur_reinit = R->reinit ? k : 0;
 		if (R->mode == 1) { cur_trunc = k; clen = (size_t)k; if (st_reference()) return 2; }
 		if (R->mode == 3) { cur_trunc = cur_cut = k; if (st_reference()) return 2; }
+		if (R->mode == 5) cur_trunc = k;
 		vs_stats st; vs_explore(body_checked, &b, shard, nsh, &st, h_expired);
 		if (vs_dumped) { printf("CONTINUE k=%d\n", k); tot.executions += st.executions; tot.transitions += st.transitions; tot.points += st.points; if (st.max_points > tot.max_points) tot.max_points = st.max_points; break; }
 		tot.executions += st.executions; tot.transitions += st.transitions; tot.points += st.points; if (st.max_points > tot.max_points) tot.max_points = st.max_points; tot.switches += st.switches; tot.with_timeouts += st.with_timeouts; tot.incomplete |= st.incomplete;
